@@ -1068,6 +1068,9 @@ def solve(objfun, x0, h=None, lh=None, prox_uh=None, argsf=(), argsh=(), argspro
     if exit_info is None and not all_ok:
         exit_info = ExitInformation(EXIT_INPUT_ERROR, "Bad parameters: %s" % str(bad_keys))
 
+    if exit_info is None and params("restarts.rhoend_scale") <= 0.0:
+        exit_info = ExitInformation(EXIT_INPUT_ERROR, "restarts.rhoend_scale must be strictly positive")
+
     if exit_info is None and params("growing.safety.full_geom_step"):
         if params("growing.safety.reduce_delta"):
             exit_info = ExitInformation(EXIT_INPUT_ERROR,
